@@ -412,6 +412,8 @@ def run(tier: str, seed: int) -> Report:
     add_file([{"hist": [pos_step] * nstall, "stall": True}], "writer-stalled")
     # ... and, once the writer runs again, sqlite reports "database is locked" for a few of its inserts
     add_file([{"hist": [pos_step] * 40, "stall": "busy"}], "writer-stalled")
+    for nlast in (1, 4, 9):
+        add_file([{"hist": [pos_step] * nlast, "stall": "busy-last"}], "writer-stalled")
     add_file([{"hist": [pos_step, req_step(good[rd], [["T"]], label="Timeout")] * 12, "stall": "busy"}],
              "writer-stalled")
     add_file([{"hist": [pos_step, req_step(good[rd], [["T"]], label="Timeout")] * (nstall // 4), "stall": True}],
